@@ -351,7 +351,7 @@ package flyt
 //@     requires [C17] !isType(prepResult, Result) ==> p == Result{prepResult, nil}
 //@     requires [C17] r == wrapAny(execResult)
 //@     effect calls = 1; ua = act; ue = e
-//@   ensures [C01] old(n.postFunc) != nil ==> calls == 1 && a == ua && err == ue
+//@   ensures [C01,C04] old(n.postFunc) != nil ==> calls == 1 && a == ua && err == ue
 //@   ensures [C01] old(n.postFunc) == nil ==> calls == 0 && a == DefaultAction && err == nil
 
 //@ func (*CustomNode).ExecFallback(n, prepResult, e0) (v, err)
@@ -361,8 +361,8 @@ package flyt
 //@   on call field CustomNode.execFallbackFunc(fn, p, e) returns (rv, re)
 //@     requires [C01,C02] calls == 0 && fn == n.execFallbackFunc && p == prepResult && e == e0
 //@     effect calls = 1; uv = rv; ue = re
-//@   ensures [C01,C02] old(n.execFallbackFunc) != nil ==> calls == 1 && v == uv && err == ue
-//@   ensures [C01,C02] old(n.execFallbackFunc) == nil ==> calls == 0 && v == nil && err == e0
+//@   ensures [C01,C02,C04] old(n.execFallbackFunc) != nil ==> calls == 1 && v == uv && err == ue
+//@   ensures [C01,C02,C04] old(n.execFallbackFunc) == nil ==> calls == 0 && v == nil && err == e0
 
 // NodeBuilder: pure delegation to the embedded CustomNode / BaseNode
 //@ func (*NodeBuilder).Prep(b, ctx, shared) (v, err)
@@ -372,7 +372,7 @@ package flyt
 //@   on call (*CustomNode).Prep(n, c, s) returns (rv, re)
 //@     requires [C01] calls == 0 && n == b.CustomNode && c == ctx && s == shared
 //@     effect calls = 1; dv = rv; de = re
-//@   ensures [C01,C17] calls == 1 && v == dv && err == de
+//@   ensures [C01,C04,C17] calls == 1 && v == dv && err == de
 //@ func (*NodeBuilder).Exec(b, ctx, p) (v, err)
 //@   requires b != nil && b.CustomNode != nil && b.CustomNode.BaseNode != nil
 //@   havoc user
@@ -380,7 +380,7 @@ package flyt
 //@   on call (*CustomNode).Exec(n, c, pr) returns (rv, re)
 //@     requires [C01] calls == 0 && n == b.CustomNode && c == ctx && pr == p
 //@     effect calls = 1; dv = rv; de = re
-//@   ensures [C01,C17] calls == 1 && v == dv && err == de
+//@   ensures [C01,C04,C17] calls == 1 && v == dv && err == de
 //@ func (*NodeBuilder).Post(b, ctx, shared, p, r) (a, err)
 //@   requires b != nil && b.CustomNode != nil && b.CustomNode.BaseNode != nil
 //@   havoc user
@@ -388,7 +388,7 @@ package flyt
 //@   on call (*CustomNode).Post(n, c, s, pr, er) returns (ra, re)
 //@     requires [C01] calls == 0 && n == b.CustomNode && c == ctx && s == shared && pr == p && er == r
 //@     effect calls = 1; da = ra; de = re
-//@   ensures [C01,C17] calls == 1 && a == da && err == de
+//@   ensures [C01,C04,C17] calls == 1 && a == da && err == de
 //@ func (*NodeBuilder).ExecFallback(b, p, e0) (v, err)
 //@   requires b != nil && b.CustomNode != nil && b.CustomNode.BaseNode != nil
 //@   havoc user
@@ -396,7 +396,7 @@ package flyt
 //@   on call (*CustomNode).ExecFallback(n, pr, e) returns (rv, re)
 //@     requires [C01,C02] calls == 0 && n == b.CustomNode && pr == p && e == e0
 //@     effect calls = 1; dv = rv; de = re
-//@   ensures [C01,C02] calls == 1 && v == dv && err == de
+//@   ensures [C01,C02,C04] calls == 1 && v == dv && err == de
 //@ func (*NodeBuilder).GetMaxRetries(b) (r)
 //@   requires b != nil && b.CustomNode != nil && b.CustomNode.BaseNode != nil
 //@   ensures [C02,C19] r == b.CustomNode.BaseNode.maxRetries
@@ -1008,8 +1008,8 @@ package flyt
 //@   on call (*CustomNode).Prep(cn, c, s) returns (rv, re)
 //@     requires [C06] calls == 0 && dcalls == 0 && cn == n.CustomNode && c == ctx && s == shared
 //@     effect dcalls = 1; dv = rv; de = re
-//@   ensures [C06] old(n.batchPrepFunc) != nil ==> calls == 1 && dcalls == 0 && v == box(ur, []Result) && err == ue
-//@   ensures [C06] old(n.batchPrepFunc) == nil ==> calls == 0 && dcalls == 1 && v == dv && err == de
+//@   ensures [C04,C06] old(n.batchPrepFunc) != nil ==> calls == 1 && dcalls == 0 && v == box(ur, []Result) && err == ue
+//@   ensures [C04,C06] old(n.batchPrepFunc) == nil ==> calls == 0 && dcalls == 1 && v == dv && err == de
 
 //@ func (*BatchNode).Post(n, ctx, shared, prepResult, execResult) (a, err)
 //@   requires n != nil
@@ -1019,7 +1019,7 @@ package flyt
 //@   on call field BatchNode.batchPostFunc(fn, c, s, p, r) returns (act, e)
 //@     requires [C06] calls == 0 && fn == n.batchPostFunc && c == ctx && s == shared && p == prepResult.([]Result) && r == execResult.([]Result)
 //@     effect calls = 1; ua = act; ue = e
-//@   ensures [C06] old(n.batchPostFunc) != nil ==> calls == 1 && a == ua && err == ue
+//@   ensures [C04,C06] old(n.batchPostFunc) != nil ==> calls == 1 && a == ua && err == ue
 //@   ensures [C06,C18] old(n.batchPostFunc) == nil ==> calls == 0 && a == DefaultAction && err == nil
 
 //@ func (*BatchNodeBuilder).Prep(b, ctx, shared) (v, err)
@@ -1029,7 +1029,7 @@ package flyt
 //@   on call (*BatchNode).Prep(n, c, s) returns (rv, re)
 //@     requires [C06] calls == 0 && n == b.BatchNode && c == ctx && s == shared
 //@     effect calls = 1; dv = rv; de = re
-//@   ensures [C06] calls == 1 && v == dv && err == de
+//@   ensures [C04,C06] calls == 1 && v == dv && err == de
 //@ func (*BatchNodeBuilder).Exec(b, ctx, p) (v, err)
 //@   requires b != nil && b.BatchNode != nil && b.BatchNode.CustomNode != nil && b.BatchNode.CustomNode.BaseNode != nil
 //@   havoc user
@@ -1046,7 +1046,7 @@ package flyt
 //@   on call (*BatchNode).Post(n, c, s, pr, er) returns (ra, re)
 //@     requires [C06] calls == 0 && n == b.BatchNode && c == ctx && s == shared && pr == p && er == r
 //@     effect calls = 1; da = ra; de = re
-//@   ensures [C06] calls == 1 && a == da && err == de
+//@   ensures [C04,C06] calls == 1 && a == da && err == de
 
 //@ func (*BatchNodeBuilder).WithPrepFunc(b, fn) (r)
 //@   requires b != nil && b.BatchNode != nil
